@@ -428,6 +428,12 @@ def largestKey (c : Col) : Option Nat :=
     | Option.none => some k.idx
     | some m => some (max m k.idx)) Option.none
 
+/-- `largest key + 1` (`0` without keys): the length `get_recursive` derives from the known map. -/
+def keyLength (c : Col) : Nat :=
+  match c.largestKey with
+  | Option.none => 0
+  | some i => i + 1
+
 /-- one iteration of the loop body of `remove_shift`. -/
 def shiftStep (index : Nat) (known : KList) : KList :=
   match known.get (Key.ofIdx (index + 1)) with
